@@ -103,6 +103,22 @@ theorem nonprefixable_never_base (pre : PrefixesN K) (t : LutN K) (b : Name) (e 
       rw [hb] at he'; cases he'
       rw [hnp] at hpre; cases hpre
 
+/-- what a dict look-up answers is one of the dict's items -/
+theorem Dict.mem_toList_of_get? {α : Type} (d : Dict α) (k : Name) (v : α) (h : d.get? k = some v) :
+    (k, v) ∈ d.toList := by
+  induction d with
+  | leaf => simp [Dict.get?] at h
+  | node l k' v' r ihl ihr =>
+    simp only [Dict.get?] at h
+    simp only [Dict.toList, List.mem_append, List.mem_cons]
+    split at h
+    · rename_i hb
+      cases h
+      exact Or.inr (Or.inl (by rw [Nat.eq_of_beq_eq_true hb]))
+    · split at h
+      · exact Or.inl (ihl h)
+      · exact Or.inr (Or.inr (ihr h))
+
 /-! ### the reading does not depend on the numeric carrier -/
 
 theorem splitPrefix_map (f : K → K') (pre : PrefixesN K) (t : LutN K) (s : Name) :
